@@ -28,6 +28,16 @@ func verifMergeFile(id uint32) {
 	}
 }
 
+// VerifBatch, when set, is told the id of every batch NewBatch creates (the data-structure layer
+// creates its batches internally).
+var VerifBatch func(id uint64)
+
+func verifBatch(id uint64) {
+	if VerifBatch != nil {
+		VerifBatch(id)
+	}
+}
+
 func verifSched(label string) {
 	if VerifSched != nil {
 		VerifSched(label)
